@@ -103,6 +103,15 @@ CHECKS = {
               'checks the representation invariant of every tensor the library constructs (about 270k constructions, 7k distinct pattern shapes per '
               'quick run), including under sum-product/backward workloads on patterned weights.'),
         design_ref='DESIGN.md §4 C06'),
+    'C07': dict(
+        technique='boundary monitor on einsum/mv/mm/log_viterbi_einsum_forward vs brute-force nested-loop semiring einsum on independently densified operands; hook on reduce_equation (runtime monitoring)',
+        text=('Runtime monitoring: random einsum signatures (<= 4 typed indices, <= 3 operands, indices repeated across and within operands, any output '
+              'order, zero-size dims) with well-typed patterned operands (sum/product/shared axes, stride-0 views, non-zero defaults, operands sharing '
+              'axis objects) are evaluated by the real einsum in 4 semirings, on the equation-reduction path and on the requires_grad path (under '
+              'no_grad), plus mv/mm and the empty operand list; every result is compared with a brute-force nested-loop evaluation. For the Viterbi '
+              'variant the pointer tensor must have one entry per summed-out index and, plugged back into the operands, attain the maximum in every '
+              'cell. A hook on reduce_equation counts reductions that really dropped a stride-0 dimension.'),
+        design_ref='DESIGN.md §4 C07'),
 }
 
 NOT_BUILT = {}
